@@ -89,3 +89,55 @@ def gen_program(rng, clock=None, n_events=None, with_bad=True, with_cancel=True,
     return {"clock": clock, "rep": {"start": _lit(rng, clock, start) if clock != "duration" else [float(start), "s"],
                                     "warmup": _lit(rng, clock, warmup), "length": _lit(rng, clock, length)},
             "init": init, "handlers": handlers}
+
+
+def add_stats(rng, prog, kinds=("counter", "tally", "wtally", "persistent"), watch=True, density=0.7):
+    """statistics created in construct_model + observation actions sprinkled over init and handlers"""
+    specs = []
+    for k, kind in enumerate(rng.sample(list(kinds), rng.randint(1, len(kinds)))):
+        specs.append({"key": f"{kind}{k}", "kind": kind, "via": rng.choice(["register", "event"]), "watch": watch})
+    prog["stats"] = specs
+
+    def obs():
+        sp = rng.choice(specs)
+        if sp["kind"] == "counter":
+            return ["obs", sp["key"], rng.randint(-3, 9)]
+        if sp["kind"] == "wtally":
+            return ["obs", sp["key"], rng.choice([0.0, 1.0, 2.5, rng.uniform(0, 5)]), rng.choice([1.0, 4.0, rng.uniform(-10, 10)])]
+        return ["obs", sp["key"], rng.choice([1.0, 2.0, rng.uniform(-10, 10), float(rng.randint(0, 5))])]
+    for tag in list(prog["handlers"].keys()):
+        acts = prog["handlers"][tag]
+        for _ in range(rng.choice([0, 1, 1, 2])):
+            if rng.random() < density:
+                acts.insert(rng.randrange(len(acts) + 1), obs())
+    # leaf events (no handler entry yet) observe as well
+    for acts in list(prog["handlers"].values()) + [prog["init"]]:
+        for a in acts:
+            if a[0] in ("rel", "abs", "ev", "now"):
+                child = a[3] if a[0] != "now" else a[2]
+                if child not in prog["handlers"] and rng.random() < density:
+                    prog["handlers"][child] = [obs() for _ in range(rng.randint(1, 2))]
+    if rng.random() < 0.3:
+        prog["init"].append(obs())
+    return prog
+
+
+def add_streams(rng, prog, n_draw=6):
+    """seeded streams (re-created in construct_model) and handlers whose next delay is drawn from a distribution"""
+    prog["streams"] = [{"name": "s1", "seed": rng.randint(1, 10 ** 6)}, {"name": "s2", "seed": rng.randint(1, 10 ** 6)}]
+    dists = [["DistExponential", [rng.choice([0.5, 1.0, 2.0])]], ["DistUniform", [0.0, rng.choice([1.0, 3.0])]],
+             ["DistTriangular", [0.0, 1.0, 2.0]], ["DistGamma", [rng.choice([0.5, 2.0]), 1.0]], ["DistNormalTrunc", [1.0, 1.0, 0.0, 3.0]]]
+    tags = list(prog["handlers"].keys())
+    n = 0
+    for tag in tags:
+        if n >= n_draw:
+            break
+        if rng.random() < 0.5:
+            d = rng.choice(dists)
+            n += 1
+            child = f"d{n}"
+            prog["handlers"][tag].append(["drawrel", rng.choice(["s1", "s2"]), d[0], d[1], rng.choice([1, 5, 5, 9]), child])
+            # a short self-feeding chain
+            prog["handlers"][child] = [["drawrel", rng.choice(["s1", "s2"]), d[0], d[1], 5, child + "x"]]
+            prog["handlers"][child + "x"] = [["drawrel", "s1", "DistExponential", [1.0], 5, child + "y"]]
+    return prog
